@@ -5,8 +5,8 @@ namespace ScriggoV.Cancel
 /-- the invariant "the flag is only ever set after the context was cancelled" -/
 def WF (s : Sys) : Prop := s.flag = true → s.ctxClosed = true
 
-theorem blockStep_stop {F : Facts} {c rdy : Bool} {pc : Nat} {b : Blocked}
-    (h : (blockStep F c rdy pc b).stop = true) : c = true := by
+theorem blockStep_stop {F : Facts} {c rdy : Bool} {v : VM} {b : Blocked}
+    (h : (blockStep F c rdy v b).stop = true) : c = true := by
   unfold blockStep at h
   split at h
   · simp at h
@@ -94,27 +94,33 @@ theorem ctx_mono (F : Facts) (s : Sys) (e : Ev) (h : s.ctxClosed = true) :
     · exact h
     · exact h
 
+/-- with the epilogue fact a stopping VM takes its whole goroutine out -/
+theorem stopVM_budget (F : Facts) (hF : F.all = true) (v : VM) : budget (stopVM F v).vm = 0 := by
+  have he : F.epilogue = true := by
+    simp only [Facts.all, Bool.and_eq_true] at hF; exact hF.2
+  simp [stopVM, he, budget]
+
 /-- once the flag is set (and hence the context's channel is closed) every own step of a VM uses
 up its budget -/
 theorem budget_step (F : Facts) (hF : F.all = true) (prog : List Instr) (rdy : Bool) (v : VM) :
     budget (stepVM F prog true true rdy v).vm ≤ budget v - 1 := by
   have hF' := hF
   simp only [Facts.all, Bool.and_eq_true] at hF'
-  obtain ⟨⟨⟨⟨h1, h2⟩, h3⟩, h4⟩, h5⟩ := hF'
+  obtain ⟨⟨⟨⟨⟨h1, h2⟩, h3⟩, h4⟩, h5⟩, _⟩ := hF'
   have hd : ∀ b, F.doneCase b = true := by
     intro b; cases b <;> simp [Facts.doneCase, *]
-  have hb : ∀ pc b, budget (blockStep F true rdy pc b).vm ≤ 1 := by
-    intro pc b
+  have hb : ∀ (w : VM) b, budget (blockStep F true rdy w b).vm ≤ 1 := by
+    intro w b
     unfold blockStep
     split
     · simp [budget]
-    · simp [hd b, budget]
-  obtain ⟨pc, st⟩ := v
+    · simp [hd b, stopVM_budget F hF]
+  obtain ⟨pc, st, frames⟩ := v
   cases st with
-  | running => simp [stepVM, h1, budget]
+  | running => simp [stepVM, h1, stopVM_budget F hF]
   | blocked b =>
-    have := hb pc b
-    show budget (blockStep F true rdy pc b).vm ≤ 2 - 1
+    have := hb ⟨pc, .blocked b, frames⟩ b
+    show budget (blockStep F true rdy ⟨pc, .blocked b, frames⟩ b).vm ≤ 2 - 1
     omega
   | inNative k => cases k <;> simp [stepVM, budget]
   | finishing => simp [stepVM, budget]
